@@ -107,6 +107,14 @@ def load_baseline(prop):
     return None
 
 
+def _aggregate_obligations(verdicts):
+    agg = {}
+    for v in verdicts:
+        k = (v['name'], v['tag'], v['status'], v['backend'])
+        agg[k] = agg.get(k, 0) + 1
+    return [{'name': k[0], 'tag': k[1], 'status': k[2], 'backend': k[3], 'paths': n} for k, n in agg.items()]
+
+
 def finish(prop, spec, results, bounded, tier, seed, t0, verbose=False, partial=False, record=False):
     known = open_findings(prop)
     base = load_baseline(prop)
@@ -258,7 +266,8 @@ def finish(prop, spec, results, bounded, tier, seed, t0, verbose=False, partial=
         'discharged_by_backend': backends,
         'solver_seconds_total': round(solver_time, 3),
         'solver_seconds_max_query': round(max_q, 3),
-        'obligation_names': [{'name': v['name'], 'tag': v['tag'], 'status': v['status'], 'backend': v['backend']} for v in verdicts],
+        # one entry per (name, tag, status, back end); `paths` = on how many program paths an obligation of that name was generated
+        'obligation_names': _aggregate_obligations(verdicts),
         'helper_drift': [v['name'] for v in drift],
         'tree_hash': th, 'baseline_tree_hash': base.get('tree_hash') if base else None,
         'undecided': [u for u, _ in undecided],
